@@ -173,12 +173,9 @@ def replay_map(fam, case, ob):
             return float(Fraction(s.replace("?", "")))
         except Exception:
             return default
-    self_kw = {p: abs(val(f"self.{p}", 1.0 + 0.5 * i)) or 1.0 for i, p in enumerate(ps)}
-    expl = {p: (abs(val(f"arg.{p}", 2.0 + 0.25 * i)) or 1.5) for i, p in enumerate(ps) if case["pattern"][p]}
-    # make explicit values differ from stored ones so that an ignored argument is visible
-    for p in expl:
-        if abs(expl[p] - self_kw[p]) < 1e-9:
-            expl[p] = self_kw[p] * 1.7 + 0.3
+    # the solver's model is used as it is; symbols it left unconstrained get distinct defaults
+    self_kw = {p: val(f"self.{p}", 1.0 + 0.5 * i) for i, p in enumerate(ps)}
+    expl = {p: val(f"arg.{p}", 2.0 + 0.25 * i) for i, p in enumerate(ps) if case["pattern"][p]}
     inst = cls(**self_kw)
     ref_kw = dict(self_kw)
     ref_kw.update(expl)
